@@ -154,7 +154,7 @@ func (c *FnCtx) doCallVals(p *Path, call *ssa.CallCommon, fnv Val, args []Val, p
 	// may panic
 	q := p
 	pv := c.symbolic(q, "panicval", types.NewInterfaceType(nil, nil))
-	q.assume(fmt.Sprintf("(not (= %s 0))", pv.T))
+	// the value may be nil: panic(nil) (modules below go 1.21) and runtime.Goexit both unwind with recover() == nil
 	q.panicked = true
 	q.panicVal = &pv
 	outs = append(outs, outcome{p: q, panic: true})
